@@ -187,3 +187,6 @@ func allTypedSets(r *ev.Run) int {
 	n += typedSets(r, spell.FloatAlike)
 	return n
 }
+
+// ModelKey is the layout-independent state key (see seqmc.ModelKeyer).
+func (x *th[K]) ModelKey() string { return fmt.Sprint(x.k, x.m, x.u.Phase()) }
